@@ -138,7 +138,7 @@ type mockDB struct {
 	coll map[string]string
 }
 
-func (m *mockDB) InspectSchema(_ context.Context, name string, _ *schema.InspectOptions) (*schema.Schema, error) {
+func (m *mockDB) InspectSchema(_ context.Context, name string, opts *schema.InspectOptions) (*schema.Schema, error) {
 	if name == "" {
 		name = m.bound
 		if m.session != "" {
@@ -150,11 +150,20 @@ func (m *mockDB) InspectSchema(_ context.Context, name string, _ *schema.Inspect
 	}
 	r := m.realm()
 	s, _ := r.Schema(name)
+	if opts != nil && opts.Mode != 0 && !opts.Mode.Is(schema.InspectTables) {
+		s.Tables = nil // the caller asked for less than the tables: a real inspector does not load them
+	}
 	return s, nil
 }
 
-func (m *mockDB) InspectRealm(context.Context, *schema.InspectRealmOption) (*schema.Realm, error) {
-	return m.realm(), nil
+func (m *mockDB) InspectRealm(_ context.Context, opts *schema.InspectRealmOption) (*schema.Realm, error) {
+	r := m.realm()
+	if opts != nil && opts.Mode != 0 && !opts.Mode.Is(schema.InspectTables) {
+		for _, s := range r.Schemas {
+			s.Tables = nil
+		}
+	}
+	return r, nil
 }
 
 // realm renders the catalogue, foreign keys included (objects the inspector does not report - deps - excluded).
